@@ -22,6 +22,9 @@ pub enum TOp {
 #[derive(Serialize, Deserialize, Clone, Debug)]
 pub struct TrackerPlan {
     pub m: usize,
+    /// the tracker is built in this thread and used in another one
+    #[serde(default)]
+    pub other_thread: bool,
     pub float: bool,
     #[serde(default)]
     pub vt: TVt,
@@ -45,7 +48,7 @@ pub enum TVt {
     Usize,
 }
 
-trait TVal: probminhash::verif::MaxValue + PartialOrd + Copy + std::fmt::Debug {
+trait TVal: probminhash::verif::MaxValue + PartialOrd + Copy + std::fmt::Debug + Send {
     /// value encoded in a plan word
     fn decode(bits: u64) -> Self;
     fn type_max() -> Self;
@@ -118,7 +121,65 @@ tval_int!(usize);
 
 fn exec_tracker<V: TVal>(plan: &TrackerPlan, ctx: &mut Ctx) -> Result<(), Violation> {
     let m = plan.m;
-    let mut t = Tracker::<V>::new(m);
+    let t = Tracker::<V>::new(m);
+    if plan.other_thread {
+        // built in this thread, used in a fresh one (per-thread state of the library must not matter)
+        ctx.count("fault:built-here-used-in-another-thread");
+        let _ = crate::alloc_track::disarm();
+        return std::thread::scope(|sc| sc.spawn(|| exec_tracker_on::<V>(plan, ctx, t)).join().unwrap_or_else(|_| Err(Violation { property: "C15".into(), oracle: "unexpected-panic".into(), key: String::new(), detail: "panic in the other thread".into() })));
+    }
+    exec_tracker_on::<V>(plan, ctx, t)
+}
+
+/// very large trackers: the model keeps a multiset of slot values so that the maximum costs O(log m) per operation
+fn exec_tracker_huge<V: TVal>(plan: &TrackerPlan, ctx: &mut Ctx, mut t: Tracker<V>) -> Result<(), Violation> {
+    let m = plan.m;
+    let mut model: Vec<V> = vec![V::type_max(); m];
+    let mut multiset: std::collections::BTreeMap<u64, usize> = std::collections::BTreeMap::new();
+    multiset.insert(V::type_max().digest(), m);
+    ctx.count("probe:very-deep-tracker");
+    for (n, op) in plan.ops.iter().enumerate() {
+        if let TOp::Update(k, bits) = op {
+            let v = V::decode(*bits);
+            ctx.ev("update", (*k as u64) << 32 ^ *bits);
+            if v < model[*k] {
+                let old = model[*k].digest();
+                let c = multiset.get_mut(&old).unwrap();
+                *c -= 1;
+                if *c == 0 {
+                    multiset.remove(&old);
+                }
+                *multiset.entry(v.digest()).or_insert(0) += 1;
+                model[*k] = v;
+            }
+            t.update(*k, v);
+            ctx.check("C15", "slot-value-is-smallest-offered", t.get_value(*k) == model[*k], || {
+                format!("m {} after operation {}: slot {} reports {:?}, the smallest value offered is {:?}", m, n, k, t.get_value(*k), model[*k])
+            })?;
+            // positive floats: the order of bit patterns is the order of values
+            let truth_bits = *multiset.keys().next_back().unwrap();
+            ctx.check("C15", "reported-maximum-is-largest-slot-value", t.get_max_value().digest() == truth_bits, || {
+                format!("m {} after operation {} (update of slot {}): tracker reports maximum {:?}, the largest slot value has bits {:#x}", m, n, k, t.get_max_value(), truth_bits)
+            })?;
+            let possible = t.is_update_possible(v);
+            ctx.check("C15", "update-possible-iff-below-maximum", possible == (v.digest() < truth_bits), || {
+                format!("m {} after operation {}: is_update_possible({:?}) = {}", m, n, v, possible)
+            })?;
+        }
+    }
+    for k in 0..m {
+        ctx.check("C15", "slot-value-is-smallest-offered", t.get_value(k) == model[k], || format!("m {} at the end: slot {} reports {:?}, model {:?}", m, k, t.get_value(k), model[k]))?;
+    }
+    ctx.out.add(t.get_max_value().digest());
+    ctx.nontrivial = true;
+    Ok(())
+}
+
+fn exec_tracker_on<V: TVal>(plan: &TrackerPlan, ctx: &mut Ctx, mut t: Tracker<V>) -> Result<(), Violation> {
+    let m = plan.m;
+    if m > 20_000 && plan.vt == TVt::F64 && plan.ops.iter().all(|o| matches!(o, TOp::Update(_, b) if f64::from_bits(*b) >= 0.0)) {
+        return exec_tracker_huge::<V>(plan, ctx, t);
+    }
     let mut model: Vec<V> = vec![V::type_max(); m];
     let mut ties = false;
     let maxof = |model: &Vec<V>| -> V {
@@ -216,12 +277,25 @@ impl Scenario for TrackerSc {
     }
     fn generate(&self, rng: &mut Rng, tier: Tier, _t: &str) -> TrackerPlan {
         let m = if rng.chance(0.03) { rng.log_range(41, if tier == Tier::Thorough { 5000 } else { 1000 }) as usize } else { rng.urange(1, 40) };
+        // very deep trees (few operations: every check walks all slots)
+        let huge = rng.chance(0.002);
+        let m = if huge { rng.range(32_769, 70_000) as usize } else { m };
         let vt = *rng.pick(&[TVt::F64, TVt::F64, TVt::F64, TVt::F32, TVt::U32, TVt::U16, TVt::I32, TVt::U64, TVt::Usize]);
         let float = matches!(vt, TVt::F64 | TVt::F32);
         let npool = rng.urange(2, 6);
         let pool: Vec<u64> = (0..npool)
             .map(|_| if float { (match rng.below(4) { 0 => rng.f64(), 1 => rng.f64() * 1e-300, 2 => (rng.range(0, 20) as f64) * 0.5, _ => rng.f64() * 1e300 }).to_bits() } else { { let hi = if rng.chance(0.5) { 8 } else { u32::MAX as u64 }; rng.below(hi) } })
             .collect();
+        if huge {
+            // every slot receives a value (random order), then some more updates: only then can the root move
+            let mut order: Vec<usize> = (0..m).collect();
+            rng.shuffle(&mut order);
+            let mut ops: Vec<TOp> = order.iter().map(|k| TOp::Update(*k, (1.0 + rng.f64() * 1000.0).to_bits())).collect();
+            for _ in 0..rng.urange(10, 2000) {
+                ops.push(TOp::Update(rng.usize_below(m), (rng.f64() * 1000.0).to_bits()));
+            }
+            return TrackerPlan { m, other_thread: false, float: true, vt: TVt::F64, ops, probes: vec![] };
+        }
         let nops = rng.log_range(1, if m > 40 { 3 * m as u64 } else { 200 }) as usize;
         let style = rng.below(4);
         let mut cur = if float { 1e6f64 } else { 1e6 };
@@ -252,7 +326,7 @@ impl Scenario for TrackerSc {
                 TOp::Update(k, v)
             })
             .collect();
-        TrackerPlan { m, float, vt, ops, probes: pool }
+        TrackerPlan { m, other_thread: rng.chance(0.08), float, vt, ops, probes: pool }
     }
     fn execute(&self, plan: &TrackerPlan, ctx: &mut Ctx) -> Result<(), Violation> {
         match plan.vt {
@@ -358,6 +432,9 @@ pub enum ShufMode {
 pub struct ShufPlan {
     pub m: usize,
     pub mode: ShufMode,
+    /// the generator object is built in this thread and used in another one
+    #[serde(default)]
+    pub other_thread: bool,
 }
 
 pub struct ShuffleSc;
@@ -373,26 +450,42 @@ fn word_for_choice(c: usize, n: usize) -> u64 {
     ((x * (1u64 << 52) as f64) as u64) << 12
 }
 
-/// which choice (offset from the cursor) the shuffle takes at step j for generator word w; None if the consumption pattern is not one next_u64 per draw
-fn choice_at(m: usize, j: usize, w: u64) -> Option<usize> {
+/// Rank (by position in the arrangement) of the element drawn at step j among the elements not drawn so far,
+/// for generator word w, after j draws with word 0. This is independent of how the implementation lays out
+/// drawn and undrawn elements: the arrangement is read through the public `get_values()` before the draw.
+/// None if the generator is not consumed as one next_u64 per draw or the draw is not an undrawn element.
+fn choice_at(m: usize, j: usize, w: u64, bits32: bool) -> Option<usize> {
     let mut sh = FYshuffle::new(m);
     sh.reset();
     let mut words = vec![0u64; j];
     words.push(w);
     let mut g = Script::new(words, 1);
+    let mut drawn: BTreeSet<usize> = BTreeSet::new();
     for _ in 0..j {
-        // word 0 -> offset 0 -> no swap: the arrangement stays the identity
         let v = sh.next(&mut g);
-        if v >= m {
+        if v >= m || !drawn.insert(v) {
             return None;
         }
     }
+    let before: Vec<usize> = sh.get_values().clone();
     let v = sh.next(&mut g);
-    if g.calls64 != (j + 1) as u64 || g.calls32 != 0 {
+    let pattern_ok = if bits32 { g.calls32 == (j + 1) as u64 && g.calls64 == 0 } else { g.calls64 == (j + 1) as u64 && g.calls32 == 0 };
+    if !pattern_ok || v >= m || drawn.contains(&v) || before.len() != m {
         return None;
     }
-    // arrangement was the identity, so the value drawn is the index chosen
-    v.checked_sub(j)
+    // positions of the undrawn elements, in position order; rank of the drawn one among them
+    let mut rank = 0usize;
+    for (pos, x) in before.iter().enumerate() {
+        if drawn.contains(x) {
+            continue;
+        }
+        if *x == v {
+            let _ = pos;
+            return Some(rank);
+        }
+        rank += 1;
+    }
+    None
 }
 
 impl Scenario for ShuffleSc {
@@ -403,7 +496,7 @@ impl Scenario for ShuffleSc {
     fn generate(&self, rng: &mut Rng, tier: Tier, _t: &str) -> ShufPlan {
         let r = rng.below(20);
         if r == 0 {
-            return ShufPlan { m: rng.urange(1, if tier == Tier::Thorough { 7 } else { 6 }), mode: ShufMode::AllOrders };
+            return ShufPlan { m: rng.urange(1, if tier == Tier::Thorough { 7 } else { 6 }), mode: ShufMode::AllOrders, other_thread: false };
         }
         if r <= 2 {
             let m = rng.log_range(1, if tier == Tier::Thorough { 1 << 20 } else { 1 << 14 }) as usize;
@@ -420,7 +513,7 @@ impl Scenario for ShuffleSc {
                     (j, c)
                 })
                 .collect();
-            return ShufPlan { m, mode: ShufMode::Cells(cells) };
+            return ShufPlan { m, mode: ShufMode::Cells(cells), other_thread: false };
         }
         let m = if rng.chance(0.03) { rng.log_range(65, if tier == Tier::Thorough { 1 << 20 } else { 1 << 14 }) as usize } else { rng.urange(1, 64) };
         let nops = if m > 64 { rng.urange(1, 3) * m + rng.usize_below(m) } else { rng.urange(1, 4 * m + 4) };
@@ -445,14 +538,14 @@ impl Scenario for ShuffleSc {
                 }
             })
             .collect();
-        ShufPlan { m, mode: ShufMode::History(ops) }
+        ShufPlan { m, mode: ShufMode::History(ops), other_thread: rng.chance(0.08) }
     }
     fn execute(&self, plan: &ShufPlan, ctx: &mut Ctx) -> Result<(), Violation> {
         let m = plan.m;
         ctx.sched.add(m as u64);
         match &plan.mode {
             ShufMode::History(ops) => {
-                let mut sh = FYshuffle::new(m);
+                let run = |ctx: &mut Ctx, mut sh: FYshuffle| -> Result<(), Violation> {
                 let mut g = Script::new(vec![], 7);
                 // draws since the last reset (or construction), and the words that produced them
                 let mut since: Vec<usize> = vec![];
@@ -518,6 +611,21 @@ impl Scenario for ShuffleSc {
                     }
                 }
                 ctx.nontrivial = ops.len() >= 2 && m >= 2;
+                Ok(())
+                };
+                let sh0 = FYshuffle::new(m);
+                if plan.other_thread {
+                    // the object is built in this thread and used in a fresh one (per-thread state of the library must not matter)
+                    ctx.count("fault:built-here-used-in-another-thread");
+                    let _ = crate::alloc_track::disarm();
+                    let r = std::thread::scope(|sc| sc.spawn(|| run(ctx, sh0)).join());
+                    match r {
+                        Ok(x) => x?,
+                        Err(_) => return Err(Violation { property: "C17".into(), oracle: "unexpected-panic".into(), key: String::new(), detail: "panic while the shuffle was used in another thread".into() }),
+                    }
+                } else {
+                    run(ctx, sh0)?;
+                }
             }
             ShufMode::AllOrders => {
                 ctx.ev("all-orders", m as u64);
@@ -531,9 +639,23 @@ impl Scenario for ShuffleSc {
                     let mut sh = FYshuffle::new(m);
                     sh.reset();
                     let mut g = Script::new(words, 3);
-                    let order: Vec<usize> = (0..m).map(|_| sh.next(&mut g)).collect();
+                    let mut order: Vec<usize> = vec![];
+                    let mut drawn: BTreeSet<usize> = BTreeSet::new();
+                    for j in 0..m {
+                        let before: Vec<usize> = sh.get_values().clone();
+                        let v = sh.next(&mut g);
+                        // does the forced word select the intended rank among the undrawn elements?
+                        let rank = before.iter().filter(|x| !drawn.contains(*x)).position(|x| *x == v);
+                        if rank != Some(choice[j]) {
+                            skipped = true; // another (possibly equally valid) word-to-choice map: the forcing does not apply
+                        }
+                        drawn.insert(v);
+                        order.push(v);
+                    }
                     if g.calls64 != m as u64 || g.calls32 != 0 {
                         skipped = true;
+                    }
+                    if skipped {
                         break;
                     }
                     total += 1;
@@ -554,7 +676,7 @@ impl Scenario for ShuffleSc {
                     }
                 }
                 if skipped {
-                    ctx.count("skipped:generator-consumption-pattern-changed");
+                    ctx.count("skipped:word-to-choice-map-not-the-assumed-one");
                 } else {
                     let fact: u64 = (1..=m as u64).product();
                     ctx.count_n("exhaustive:choice-sequences-forced", total);
@@ -570,15 +692,27 @@ impl Scenario for ShuffleSc {
                     let n = m - j;
                     ctx.ev("cell", ((j as u64) << 32) | c as u64);
                     // smallest 52-bit value u whose choice is >= c, by bisection (monotone map assumed and verified at the ends)
-                    let grid = 1u64 << 52;
-                    let f = |u: u64| choice_at(m, j, u << 12);
+                    // one generator word per draw, either 64 bits (52 of them used by a double) or 32 bits
+                    let bits32 = choice_at(m, j, 0, false).is_none() && choice_at(m, j, 0, true).is_some();
+                    let (grid, shift) = if bits32 { (1u64 << 32, 32) } else { (1u64 << 52, 12) };
+                    if bits32 {
+                        ctx.count("probe:32-bit-generator-words-per-draw");
+                    }
+                    let f = |u: u64| choice_at(m, j, u << shift, bits32);
                     let (Some(lo), Some(hi)) = (f(0), f(grid - 1)) else {
                         ctx.count("skipped:generator-consumption-pattern-changed");
                         continue;
                     };
-                    ctx.check("C17", "choice-range-covers-all-remaining-positions", lo == 0 && hi == n - 1, || {
-                        format!("m {} step {}: smallest generator value chooses offset {}, largest chooses {}, expected 0 and {}", m, j, lo, hi, n - 1)
-                    })?;
+                    // the bisection below needs a monotone word-to-rank map: validate on a few points, else skip
+                    let mut probe = Rng::new(0xabc ^ (m as u64) ^ ((j as u64) << 20));
+                    let mut pts: Vec<u64> = (0..6).map(|_| probe.below(grid)).collect();
+                    pts.sort();
+                    let ranks: Vec<Option<usize>> = pts.iter().map(|u| f(*u)).collect();
+                    let monotone = lo == 0 && hi == n - 1 && ranks.iter().all(|r| r.is_some()) && ranks.windows(2).all(|w| w[0] <= w[1]);
+                    if !monotone {
+                        ctx.count("skipped:word-to-choice-map-not-the-assumed-one");
+                        continue;
+                    }
                     let boundary = |c: usize| -> Option<u64> {
                         if c == 0 {
                             return Some(0);
@@ -619,11 +753,11 @@ impl Scenario for ShuffleSc {
         match &plan.mode {
             ShufMode::History(ops) => {
                 for o in shrink_vec(ops) {
-                    out.push(ShufPlan { m: plan.m, mode: ShufMode::History(o) });
+                    out.push(ShufPlan { m: plan.m, mode: ShufMode::History(o), other_thread: plan.other_thread });
                 }
                 for m in [1usize, 2, 3, plan.m / 2, plan.m.saturating_sub(1)] {
                     if m >= 1 && m < plan.m {
-                        out.push(ShufPlan { m, mode: ShufMode::History(ops.clone()) });
+                        out.push(ShufPlan { m, mode: ShufMode::History(ops.clone()), other_thread: plan.other_thread });
                     }
                 }
                 // simpler words
@@ -633,7 +767,7 @@ impl Scenario for ShuffleSc {
                             if *w != 0 {
                                 let mut o = ops.clone();
                                 o[k] = SOp::Next(0);
-                                out.push(ShufPlan { m: plan.m, mode: ShufMode::History(o) });
+                                out.push(ShufPlan { m: plan.m, mode: ShufMode::History(o), other_thread: plan.other_thread });
                             }
                         }
                     }
@@ -641,19 +775,19 @@ impl Scenario for ShuffleSc {
             }
             ShufMode::AllOrders => {
                 if plan.m > 1 {
-                    out.push(ShufPlan { m: plan.m - 1, mode: ShufMode::AllOrders });
+                    out.push(ShufPlan { m: plan.m - 1, mode: ShufMode::AllOrders, other_thread: false });
                 }
             }
             ShufMode::Cells(c) => {
                 if c.len() > 1 {
                     for x in c {
-                        out.push(ShufPlan { m: plan.m, mode: ShufMode::Cells(vec![*x]) });
+                        out.push(ShufPlan { m: plan.m, mode: ShufMode::Cells(vec![*x]), other_thread: false });
                     }
                 }
                 for m in [2usize, 3, plan.m / 2] {
                     if m >= 2 && m < plan.m {
                         let cc: Vec<(usize, usize)> = c.iter().map(|(j, c)| ((*j).min(m - 1), (*c).min(m - 1 - (*j).min(m - 1)))).collect();
-                        out.push(ShufPlan { m, mode: ShufMode::Cells(cc) });
+                        out.push(ShufPlan { m, mode: ShufMode::Cells(cc), other_thread: false });
                     }
                 }
             }
